@@ -92,7 +92,7 @@ def _object_case(draw):
         "process": draw(st.sampled_from(["in-place", "transfer", "flatten"])),
         "roothash": [{"fmt": f, "digest": draw(_digest(f)), "structure": draw(_digest(f))} for f in rootfm],
         "patterns": draw(st.lists(st.one_of(gen.names("plain"), _text, st.sampled_from(["*.txt", "a/", ".DS_Store", "ascmhl", "ascmhl/"])), min_size=1, max_size=6, unique=True)),
-        "references": draw(st.lists(st.tuples(gen.names("full"), st.binary(max_size=30).map(bytes.hex)).map(list), max_size=3, unique_by=lambda t: t[0])),
+        "references": draw(st.lists(st.tuples(st.one_of(gen.names("full"), gen.names("full"), st.sampled_from([".proxies", "..cache", ".a/.b", "./x".strip("./") + ".", "_.", ".hidden dir"])), st.binary(max_size=30).map(bytes.hex)).map(list), max_size=3, unique_by=lambda t: t[0])),
         "chain": draw(st.lists(st.tuples(st.one_of(gen.names("full"), _lsep), st.integers(0, 2**512 - 1).map(refhash.c4_encode_int)).map(list), max_size=8)),
         # a collection file lists every packing list with sequence number 1: numbers need not be distinct
         "chain_numbers": draw(st.sampled_from(["ascending", "ascending", "all_one", "gaps"])),
